@@ -14,7 +14,7 @@ RULE = ('tree units: every sequence of short-read decisions (stateless re-execut
         'policies through Request.body and through Ombott.__call__. Non-trivial = at least one read was '
         'answered short or CL != len(data); distinct = distinct (len, CL, buffer, read-size sequence).')
 PYOPT = {'quick': 1, 'thorough': 1}     # one unit of every kind is also served by an interpreter started with -O (assert statements compiled out)
-REQUIRED = ['units_run_under_python_-O', 'negative_content_length', 'body_of_a_request_copy_compared', 'multipart_content_type_on_arbitrary_bytes', 'short_read_cases', 'spilled_to_file', 'in_memory', 'early_eof_cases', 'longer_stream_cases',
+REQUIRED = ['units_run_under_python_-O', 'input_stream_replaced_through_the_request', 'negative_content_length', 'body_of_a_request_copy_compared', 'multipart_content_type_on_arbitrary_bytes', 'short_read_cases', 'spilled_to_file', 'in_memory', 'early_eof_cases', 'longer_stream_cases',
             'wsgi_cases', 'rewind_checked']
 EXHAUSTIVE = {'quick': False, 'thorough': False,
               'quick_note': 'tree units are exhaustive for body<=11, CL<=13, buffer<=5',
@@ -160,6 +160,15 @@ def one_case(ctx, data, cl, buf, policy_desc, mode, rng=None, wit=None):
             ctx.count('body_of_a_request_copy_compared')
             if third != got:
                 ctx.violation('body-of-a-request-copy-differs', f'{where}: the copy presents {len(third)} bytes, the request {len(got)}', wit)
+            # the input stream is replaced through the request (a decoding or decrypting middleware-in-a-hook): the body is that of the new stream
+            if cl is not None and cl >= 0 and n % 3 == 0:
+                data2 = bytes(reversed(data))
+                st2 = RecStream(data2, 'one' if n < 2000 else 'full')
+                req['wsgi.input'] = st2
+                fourth = req.body.read()
+                ctx.count('input_stream_replaced_through_the_request')
+                if fourth != data2[:min(cl, n)]:
+                    ctx.violation('body-after-the-input-stream-was-replaced-is-not-the-new-stream', f'{where}: {len(fourth)} bytes, starting {fourth[:12]!r}, expected {data2[:12]!r}', wit)
             if env['wsgi.input'] is st:
                 ctx.violation('wsgi.input-not-replaced-by-buffered-copy', where, wit)
         else:
